@@ -146,6 +146,20 @@ def block(rep, ex: Explorer):
                 n += 1
                 rep.check(ok, "MCS.block", where, "relaxed clause", "each nf clause of a found conditional is relaxed with the NEGATED helper variable of that conditional",
                           extracted=repr(a), required="¬h_c", function=site)
+        # relaxed clauses built as new lists (clause + [¬h], [*clause, ¬h]): read off the value itself
+        ro = p.state.heap.get(p.outcome[1].oid) if isinstance(p.outcome[1], Ref) else None
+        for sg in (ro.segs if isinstance(ro, HList) else []):
+            if sg[0] == "each*" and sg[2] == ("members", S) and isinstance(sg[4], tuple) and sg[4][0] == "each" and isinstance(sg[4][4], Ref):
+                owner, cl = sg[1], sg[4][1]
+                built = p.state.heap.get(sg[4][4].oid)
+                if isinstance(built, HList):
+                    lits = [x for x in built.segs if x[0] == "each" and x[2] == ("members", cl) and x[3] == PTRUE and isinstance(x[4], ElemV) and x[4].var == x[1]]
+                    extra = [x for x in built.segs if x not in lits]
+                    n += 1
+                    rep.check(len(lits) == 1 and built.segs and built.segs[0] in lits, "MCS.block", site, "relaxed clause keeps the clause", "a relaxed clause holds all literals of the nf clause", extracted=f"{len(lits)} copy of the clause's literals", required="the clause's literals", function=site)
+                    okx = len(extra) == 1 and extra[0][0] == "one" and isinstance(extra[0][1], ElemV) and extra[0][1].var == ("neg", ("id", ("elem", owner, "key")))
+                    rep.check(okx, "MCS.block", site, "relaxed clause", "each nf clause of a found conditional is relaxed with the NEGATED helper variable of that conditional",
+                              extracted="; ".join(repr(x[1]) if x[0] == "one" else x[0] for x in extra)[:120] or "nothing added", required="¬h_c", function=site)
         vw = view(p.state, p.outcome[1])
         # helper clause: positive helper variables of all members
         helper_ok = relaxed_ok = False
